@@ -1,10 +1,13 @@
 import HydroVerif.Generated.C09Consts
 /-
-C09 — model of `hydrodiy.io.csv`: the comment header writer (`_csvhead`), the reader's prefix strip and
-`_header2comment`, and the file-name / archive-member resolution of `write_csv` / `read_csv` (`_check_name`).
-Strings are `List Char` (ASCII range is what the property quantifies over). No Mathlib.
-The table body (`DataFrame.to_csv` / `pd.read_csv`), `zipfile` and the file system are external; the file
-system appears as an `exists` predicate.
+C09 — model of `hydrodiy.io.csv`. Strings are `List Char` (ASCII range is what the property quantifies over). No Mathlib.
+Here: the comment header writer `_csvhead` in full (the four kinds of `comment` argument, key normalisation with collapsing
+keys, sorted keys, count lines, author resolution, system pairs), the reader's prefix strip and `_header2comment`, the record
+writer of `DataFrame.to_csv` (minimal quoting) and the tokeniser of `pd.read_csv` restricted to `,` and `"`, the column-name
+split, the file as a whole (`readline` loop, header / column line / body), and the file-name / archive-member resolution of
+`write_csv` / `read_csv` (`_check_name`). Numbers: `Model/C09Num.lean`; directory and archive state machines: `Model/C09Fs.lean`.
+pandas' type inference, `zipfile` and the file system are external; the file system appears as an `exists` predicate here and
+as an association list in `C09Fs`.
 -/
 namespace HydroVerif.C09
 
@@ -28,10 +31,8 @@ def startsWith : Str → Str → Bool
   | [], _ :: _ => false
   | c :: s, d :: p => c == d && startsWith s p
 
-/-- `re.search("-{10}", s)` -/
-def hasDashRule : Str → Bool
-  | [] => false
-  | c :: s => startsWith (c :: s) (List.replicate 10 '-') || hasDashRule s
+/-- `re.fullmatch("-{10,}", s)`: a rule is a line made of at least ten dashes and nothing else -/
+def isRule (s : Str) : Bool := decide (10 ≤ s.length) && s.all (· == '-')
 
 /-- `re.sub(" +", "_", s)`: every maximal run of spaces becomes one underscore -/
 def subSpacesAux : Bool → Str → Str
@@ -53,7 +54,18 @@ def headLine (k v : Str) : Str := "# ".toList ++ k ++ " : ".toList ++ v
 
 def rule : Str := "# --------------------------------------------------".toList
 
-def natStr (n : Nat) : Str := (toString n).toList
+/-- decimal digit `d < 10` as a character -/
+def digitChar (d : Nat) : Char := Char.ofNat (48 + d)
+
+/-- python `str(n)` / `f"{n}"` for a non-negative integer: decimal digits, most significant first (`fuel` bounds the recursion) -/
+def natStrAux : Nat → Nat → Str
+  | 0, _ => []
+  | fuel + 1, n => if n < 10 then [digitChar n] else natStrAux fuel (n / 10) ++ [digitChar (n % 10)]
+def natStr (n : Nat) : Str := natStrAux (n + 1) n
+
+/-- value of a string of decimal digits (python `int(s)` on digits) -/
+def digitVal (c : Char) : Nat := c.toNat - 48
+def natVal (s : Str) : Nat := s.foldl (fun a c => 10 * a + digitVal c) 0
 
 /-- insertion sort on strings (python `sorted` on the keys) -/
 def strLt (a b : Str) : Bool := decide (String.ofList a < String.ofList b)
@@ -62,11 +74,75 @@ def insertKey (kv : Str × Str) : List (Str × Str) → List (Str × Str)
   | x :: xs => if strLt kv.1 x.1 then kv :: x :: xs else x :: insertKey kv xs
 def sortKeys (l : List (Str × Str)) : List (Str × Str) := l.foldr insertKey []
 
+/-- python dict assignment on an association list: overwrite or append -/
+def dictSet (d : List (Str × Str)) (k v : Str) : List (Str × Str) :=
+  if d.any (·.1 == k) then d.map (fun e => if e.1 == k then (k, v) else e) else d ++ [(k, v)]
+
+/-- the `comment` argument of `write_csv`: a string, a list (or any other iterable) of strings, or a dictionary -/
+inductive CommentArg
+  | str (s : Str)
+  | list (l : List Str)
+  | dict (d : List (Str × Str))
+  deriving Repr
+
+/-- `f"{i:02d}"` -/
+def idx2 (i : Nat) : Str := if i < 10 then '0' :: natStr i else natStr i
+
+def enumFrom {α : Type} : Nat → List α → List (Nat × α)
+  | _, [] => []
+  | i, x :: xs => (i, x) :: enumFrom (i + 1) xs
+
+/-- the four `isinstance` branches of `_csvhead`: the dictionary that is written. A string goes under `comment`, the items
+of a list under `comment00, comment01, …`, dictionary keys lose their colons and are lower-cased - two keys that collapse
+to the same text share one entry, the later value wins (python dict assignment) -/
+def commentsOf : CommentArg → List (Str × Str)
+  | .str s => [("comment".toList, s)]
+  | .list l => (enumFrom 0 l).foldl (fun d ic => dictSet d ("comment".toList ++ idx2 ic.1) ic.2) []
+  | .dict d => d.foldl (fun acc kv => dictSet acc (writerKey kv.1) kv.2) []
+
+/-- the values `_csvhead` takes from the interpreter and the operating system when `write_sys_info` is set -/
+structure SysInfo where
+  workDir : Str
+  osName : Str
+  pyVersion : Str
+  pandasVersion : Str
+  numpyVersion : Str
+  /-- `get_python_inc()`, `get_python_lib()` when `distutils` can be imported -/
+  distutils : Option (Str × Str)
+  deriving Repr
+
+/-- `author` argument, else the login name when system information is written, else (or when `getuser` fails) "unknown" -/
+def resolveAuthor (author : Option Str) (writeSys : Bool) (getuser : Option Str) : Str :=
+  match author with
+  | some a => a
+  | none => if writeSys then (match getuser with | some u => u | none => "unknown".toList) else "unknown".toList
+
+/-- the (key, value) pairs `_csvhead` appends after the caller's comments: time stamp, author, source file (full path with
+the system information, else the file name only) and the interpreter / library versions -/
+def systemPairs (time author sourcePath sourceName : Str) (sys : Option SysInfo) : List (Str × Str) :=
+  [("time_generated".toList, time), ("author".toList, author)] ++
+  match sys with
+  | some si =>
+    [("source_file".toList, sourcePath), ("work_dir".toList, si.workDir), ("python_environment".toList, si.osName),
+     ("python_version".toList, si.pyVersion), ("pandas_version".toList, si.pandasVersion), ("numpy_version".toList, si.numpyVersion)]
+    ++ (match si.distutils with
+        | some (inc, lib) => [("python_inc".toList, inc), ("python_lib".toList, lib)]
+        | none => [])
+  | none => [("source_file".toList, sourceName)]
+
+/-- every (key, value) pair of the header in the order written: counts, the caller's comments sorted by key, system pairs -/
+def headPairs (nrow ncol : Nat) (comments : List (Str × Str)) (system : List (Str × Str)) : List (Str × Str) :=
+  [("nrow".toList, natStr nrow), ("ncol".toList, natStr ncol)] ++ sortKeys comments ++ system
+
+/-- `_csvhead` with everything it writes modelled: rule, one `# key : value` line per pair, rule -/
+def csvheadFull (nrow ncol : Nat) (comment : CommentArg) (system : List (Str × Str)) : List Str :=
+  rule :: (headPairs nrow ncol (commentsOf comment) system).map (fun kv => headLine kv.1 kv.2) ++ [rule]
+
 /-- `_csvhead`: rule, nrow, ncol, the caller's comments (sorted by key), then system lines (time stamp,
 author, source file, … given as ready-made lines), rule -/
 def csvhead (nrow ncol : Nat) (comments : List (Str × Str)) (system : List Str) : List Str :=
   [rule, headLine "nrow".toList (natStr nrow), headLine "ncol".toList (natStr ncol)]
-  ++ (sortKeys (comments.map fun kv => (writerKey kv.1, kv.2))).map (fun kv => headLine kv.1 kv.2)
+  ++ (sortKeys (commentsOf (.dict comments))).map (fun kv => headLine kv.1 kv.2)
   ++ system ++ [rule]
 
 /-! ### reader -/
@@ -82,7 +158,7 @@ def readerStrip (line : Str) : Str :=
 
 /-- one header element → optional (key, value) and the next `comment_nn` counter -/
 def h2cElem (i : Nat) (elem : Str) : Option (Str × Str) × Nat :=
-  if hasDashRule elem then (none, i) else
+  if isRule elem then (none, i) else
   let key0 := elem.takeWhile (· != ':')            -- re.sub(":.*$", "", elem), single-line elem
   let val0 := strip (elem.drop (key0.length + 1))
   let key1 := subSpaces (lower (strip key0))
@@ -91,10 +167,6 @@ def h2cElem (i : Nat) (elem : Str) : Option (Str × Str) × Nat :=
   else
     let n := if i < 10 then '0' :: natStr i else natStr i
     (if elem = [] then none else some ("comment_".toList ++ n, elem), i + 1)
-
-/-- python dict assignment on an association list: overwrite or append -/
-def dictSet (d : List (Str × Str)) (k v : Str) : List (Str × Str) :=
-  if d.any (·.1 == k) then d.map (fun e => if e.1 == k then (k, v) else e) else d ++ [(k, v)]
 
 def h2cLoop : Nat → List (Str × Str) → List Str → List (Str × Str)
   | _, d, [] => d
@@ -171,7 +243,7 @@ def parseRow (line : Str) : List Str :=
   let s := line.foldl pstep ⟨.start, [], []⟩
   s.done ++ [s.cur]
 
-/-- the column-name line as `read_csv` treats it: `line.strip().split(",")` (not quote-aware) -/
+/-- the column-name line as `read_csv` treats it: `line.rstrip("\r\n").split(",")` (not quote-aware) -/
 def splitOnComma : Str → List Str
   | [] => [[]]
   | c :: s =>
@@ -179,7 +251,57 @@ def splitOnComma : Str → List Str
     | [] => [[]]           -- unreachable
     | f :: fs => if c == ',' then [] :: f :: fs else (c :: f) :: fs
 
-def splitCols (line : Str) : List Str := splitOnComma (strip line)
+/-- `line.rstrip("\r\n")`: only the line terminator goes -/
+def rstripNL (s : Str) : Str := (s.reverse.dropWhile fun c => c == '\n' || c == '\r').reverse
+
+def splitCols (line : Str) : List Str := splitOnComma (rstripNL line)
+
+/-! ### the file as a whole: lines joined by the writer, `readline` on the reader's side -/
+
+/-- the text written: every line followed by a line feed (`fobj.write(line + "\n")` in a plain file,
+`"\n".join(head) + "\n" + txt` in an archive member; `to_csv` ends every record with a line feed) -/
+def joinLines (lines : List Str) : Str := lines.flatMap (· ++ ['\n'])
+
+/-- `fobj.readline()` repeated to the end of the text: each line keeps its line feed, a last piece without one is a line -/
+def readLines : Str → List Str
+  | [] => []
+  | c :: s =>
+    match readLines s with
+    | [] => [[c]]
+    | l :: ls => if c == '\n' then [c] :: l :: ls else (c :: l) :: ls
+
+/-- a table as text: column names and records of fields (numbers already formatted) -/
+structure Table where
+  names : List Str
+  rows : List (List Str)
+  deriving Repr, DecidableEq
+
+/-- `write_csv`: header lines, the column-name record, one record per row -/
+def writeFile (head : List Str) (t : Table) : Str :=
+  joinLines (head ++ writeRow t.names :: t.rows.map writeRow)
+
+/-- drop the line feed `readline` left at the end of a line -/
+def chomp (l : Str) : Str :=
+  match l.reverse with
+  | '\n' :: r => r.reverse
+  | _ => l
+
+/-- `re.sub("\\.", "_", cn)` on the column names after reading -/
+def fixName (n : Str) : Str := n.map fun c => if c == '.' then '_' else c
+
+structure ReadResult where
+  comment : List (Str × Str)
+  table : Table
+  deriving Repr, DecidableEq
+
+/-- `read_csv(has_colnames=True)`: header lines while they start with `#`, the next line gives the column names
+(`line.rstrip("\r\n").split(",")`, dots replaced), every later line is a record for the tokeniser; a text without a
+column-name line gives nothing (pandas raises) -/
+def readFile (text : Str) : Option ReadResult :=
+  match splitFile (readLines text) with
+  | (header, some cols, body) =>
+    some { comment := readHeader header, table := { names := (splitCols cols).map fixName, rows := body.map fun l => parseRow (chomp l) } }
+  | (_, none, _) => none
 
 /-! ### file names (last path component only; the parent directory is carried along unchanged) -/
 
